@@ -13,10 +13,10 @@ CHECKS = {
    tech="TLC model checking + schedule replay into real code + TLC trace validation"),
  "C05": dict(cat="model_checking", sec="5 C05",
    text="DedupeOps.tla (each command as its sequence of system calls with failure / roll-back branches) is model-checked by TLC for all interleavings of two commands, "
-        "every crash point and every single and double failure. The real binary is run under an LD_PRELOAD shim once per (scenario, position k of a mutating/lock call, "
+        "every crash point and every single and double failure, also for a group in which the path to replace is a hard link of the retained file (a clone onto itself must fail and be rolled back; the deviation `open with O_TRUNC` must be refuted there). The real binary is run under an LD_PRELOAD shim once per (scenario, position k of a mutating/lock call, "
         "kill before / kill after / each errno) and per pair (operation + its roll-back); the C05 statements are evaluated by TLC on the real inventories (mode obs) and the "
         "recorded call sequence drives the specification with every invariant evaluated after every call and the abstract file system compared with the real one at the end (mode full).",
-   note="kill at syscall boundary (no torn writes); reflink success emulated by the shim; positions from a calibration run; single-threaded sweep (parallel in thorough)",
+   note="kill at syscall boundary (no torn writes); reflink success emulated by the shim in the kernel's order of checks (no reflink file system in the sandbox); positions from a calibration run; single-threaded sweep (parallel in thorough)",
    tech="TLC model checking + syscall fault/crash enumeration on the real binary + TLC trace validation"),
  "C18": dict(cat="model_checking", sec="5 C18",
    text="The move part of DedupeOps.tla is model-checked by TLC (collisions, failures of rename/mkdir/copy/unlink, crash points). Real `fclones move` runs on two real devices "
@@ -40,7 +40,7 @@ CHECKS = {
    text="The C02 statements (ContentKept, ReplicasUntouched with sub-groups from Partition.tla, OutsideUntouched, LinkOpsPreserveReads, MoveKeepsBytes) are TLA+ predicates "
         "(DedupeObs.tla) evaluated by TLC on complete inventories observed before/after real `group | <op>` pipelines over seeded random trees: several groups, hard-link sets, "
         "relative/absolute symlinks reported with -S, --isolate, --match-links, hostile file names with decoys, text and JSON reports, five operations, pre-populated move targets. Dedupe.tla composes group ; remove over four paths with links and two-hop link chains across isolate roots; TLC checks ContentKept / NoDangling with the repair of partition() (Rescue) and must refute them without it.",
-   note="content identity = SHA-256; the dangerous -H -S combination is not generated; reflink runs natively (fails, must change nothing)",
+   note="content identity = SHA-256; the dangerous -H -S combination is not generated; `dedupe` runs with ioctl(FICLONE) emulated by the shim in the kernel\'s order of checks (no reflink file system in the sandbox)",
    tech="TLC-evaluated property predicates on observed inventories of randomized real runs"),
  "C11": dict(cat="model_checking", sec="5 C11",
    text="LogScript.tla models the parallel producers / priority-queue printer of --dry-run and is checked by TLC for every producer schedule (order = report order, every group printed; a "
@@ -116,10 +116,10 @@ CHECKS = {
    note="bounded: <= 3 tokens, <= 4 characters (the property's 5 tokens / 4 components are not reached exhaustively); `!(..)` and newline outside",
    tech="TLC bounded-exhaustive evaluation of a reference matcher spec + vector replay through the real matcher"),
  "C17": dict(cat="model_checking", sec="5 C17",
-   text="ShellWords.tla states, at the level of 20 symbol classes, which quoting style `quote` picks and under which condition each style is taken literally by bash (unquoted specials, word-initial "
-        "# and ~, ' inside '..', invalid bytes in lossy output); TLC checks QuoteIsLossless for every word up to the bound (it exposed the missing ~). Every enumerated word, lists of 2-3 words and "
+   text="ShellWords.tla states, at the level of 41 symbol classes (shell syntax, pattern characters, brace-expansion material, invalid and truncated multi-byte sequences), which quoting style `quote` picks and under which condition each style is taken literally by bash (unquoted specials, word-initial "
+        "# and ~, ' inside '..', invalid bytes in lossy output); TLC checks QuoteIsLossless for every word up to the bound (it exposed the missing ~) and for every word of up to 6-7 symbols over the brace material, and must refute a `quote` that leaves braces bare. Every enumerated word, lists of 2-3 words and "
         "seeded long random byte strings go through the real join -> split (must return the same bytes; a panic is reported) and through real bash (printf %s\\0; must print the same bytes).",
-   note="bash 5.2 non-interactive, empty cwd, HOME=/nonexistent-home; identity through two real decoders is the oracle, the model supplies enumeration and the style conditions",
+   note="bash 5.2 non-interactive, cwd holding only files a aa aaa (so that unquoted ? ?? [a] expand), HOME=/nonexistent-home; identity through two real decoders is the oracle, the model supplies enumeration and the style conditions",
    tech="TLC model checking of the quoting-style conditions + bounded-exhaustive replay through the real functions and bash"),
  "C10": dict(cat="model_checking", sec="5 C10",
    text="ReportFmt.tla is the line-level reader state machine of the text format (7 header lines, group header, `count` path lines) over every truncation of a report (after a line or inside it); "
